@@ -285,6 +285,29 @@ func dstRun(args []string) int {
 					dist["kind"]["nextz"]++
 				}
 			}
+			// a ONE-SHOT schedule (with its year) for a reading inside a repeated interval, asked from inside the first pass after the
+			// reading's first occurrence: its second occurrence is still in the future, so expiry must not be reported
+			// ("never reports expiry while matching local times remain in the future")
+			{
+				_, offBefore := time.Unix(tr[0]-1, 0).In(z.loc).Zone()
+				delta := int64(offBefore) - tr[1]
+				if delta >= 600 && tr[0]-delta > 0 {
+					a := int64(r.Intn(int(delta - 120)))
+					b := 1 + int64(r.Intn(int(delta-a-1)))
+					first := tr[0] - delta + a // first occurrence of the reading
+					second := tr[0] + a        // second occurrence
+					lt := time.Unix(second, 0).In(z.loc)
+					if time.Unix(first, 0).In(z.loc).Format("15:04:05") == lt.Format("15:04:05") && first+b < tr[0] && lt.Year() <= 2200 {
+						oexpr := fmt.Sprintf("%d %d %d %d %d ? %d", lt.Second(), lt.Minute(), lt.Hour(), lt.Day(), int(lt.Month()), lt.Year())
+						ncases = append(ncases, ncase{len(ops), z, oexpr, tsp{}, first + b, "one-shot-in-first-pass", -3 - second})
+						ops = append(ops, fmt.Sprintf("cron nextz %s %s %d", encRunes(oexpr), z.name, (first+b)*1e9))
+						impl = append(impl, "")
+						reqs = append(reqs, fmt.Sprintf("N %s %s %d", hexArg(oexpr), z.name, (first+b)*1e9))
+						dist["place"]["one-shot-in-first-pass"]++
+						dist["kind"]["nextz"]++
+					}
+				}
+			}
 			for c := 0; c < *chain; c++ {
 				// oracle: least instant > prev whose reading matches, within 9 days
 				want := firstMatch(z.loc, &sp, prev)
@@ -329,6 +352,8 @@ func dstRun(args []string) int {
 	}
 	ans := sup.Map(*workers, 5*time.Second, []string{selfExe(), "cron-worker"}, reqs)
 	viol := []string{}
+	known := []string{} // instances of recorded findings (at most two are listed; they do not use up the violation list)
+	knownExp := 0
 	nontrivial := 0
 	var samples []map[string]any
 	for i, c := range ncases {
@@ -345,6 +370,26 @@ func dstRun(args []string) int {
 			}
 		}
 		// does a transition lie within a day of [prev, want]?
+		if c.want <= -3 { // one-shot reading in a repeated interval, asked from inside the first pass: the second occurrence remains
+			second := -3 - c.want
+			nontrivial++
+			switch kind {
+			case "ok":
+				got, _ := strconv.ParseInt(f[1], 10, 64)
+				if got != second*1e9 {
+					flagV(fmt.Sprintf("a one-shot schedule asked from inside the first pass of its repeated hour did not answer the second occurrence (%d)", second))
+				}
+			case "expired":
+				knownExp++
+				if knownExp <= 2 {
+					known = append(known, fmt.Sprintf("C14 KNOWN[overlap-first-pass-expiry] reported expiry although the second occurrence of the matching local time (%s) is still in the future: zone=%s expr=%q prev=%s",
+						time.Unix(second, 0).In(c.z.loc).Format(time.RFC3339), c.z.name, c.expr, time.Unix(c.prev, 0).In(c.z.loc).Format(time.RFC3339)))
+				}
+			default:
+				flagV("NextFireTime did not return normally")
+			}
+			continue
+		}
 		if c.want == -2 { // no per-second oracle for a yearly schedule: termination, sanity and (by the diff) the model decide
 			switch kind {
 			case "ok":
@@ -417,6 +462,8 @@ func dstRun(args []string) int {
 			samples = append(samples, map[string]any{"zone": c.z.name, "expr": c.expr, "prev": time.Unix(c.prev, 0).In(c.z.loc).Format(time.RFC3339), "impl": ans[i]})
 		}
 	}
+	dist["outcome"]["one-shot-in-first-pass: expired (known finding)"] = knownExp
+	viol = append(viol, known...)
 	writeLines(*out+"/ops.txt", ops)
 	writeLines(*out+"/impl.txt", impl)
 	writeJSON(*out+"/stats.json", map[string]any{"seed": *seed, "evaluations": len(ops), "distinct_nontrivial": nontrivial, "zones": len(zones),
